@@ -1912,6 +1912,7 @@ package dig
 //@   requires gh != nil && gh.s != nil && p != nil
 //@   allocates plain
 //@   ensures[C05:a-group-dependency-is-an-edge-to-the-group-node] is(p, paramGroupedSlice) ==> len(orders) == 1 && orders[0] == as(p, paramGroupedSlice).orders[gh.s]
+//@   ensures[C05:every-single-dependency-is-looked-up-optional-or-not] is(p, paramSingle) ==> reached(getAllValueProviders_1)
 //@   ensures[C05:one-edge-per-visible-provider-of-a-dependency] is(p, paramSingle) && reached(getAllValueProviders_1) ==> len(orders) == len(ret(getAllValueProviders_1, 0))
 //@   ensures fresh(orders) || len(orders) == 0
 //@   site call (*dig.Scope).getAllValueProviders #1: assert[C05:dependency-providers-are-looked-up-in-the-graphs-scope] $recv == gh.s && $arg0 == as(p, paramSingle).Name && $arg1 == as(p, paramSingle).Type
